@@ -5,19 +5,21 @@ import Proofs.C06Dtype
 Model: `Ens.RaggedW` (`lean/Model/RaggedW.lean`), `step cfg : State α → Op α → Except Err …` mirrors
 `RaggedArray.__setitem__ / append / map_operator / __invert__ / __init__` of `enspara/ra/ra.py` with
 `_data`, `_array`, `lengths` as separate fields.  `cfg` names a variant of the code:
-`Cfg.current` = `/repo` HEAD (the four `fix:` commits of the read-side and write-side repairs are in),
-`Cfg.beforeC06` / `Cfg.asIs` = the variants before them.  Specification: `specStep` on a plain list
+`Cfg.current` = `/repo` HEAD (the five `fix:` commits of the read-side, write-side and operator-priority
+repairs are in),
+`Cfg.beforePriority` / `Cfg.beforeC06` / `Cfg.asIs` = the variants before them.  Specification: `specStep` on a plain list
 of rows.  Everything is for an arbitrary element type `α`, arbitrary states, operations, histories.
 
-* Full-strength theorems for `/repo` HEAD: `step_refines`, `step_preserves_coherent`,
-  `history_refines`, `history_observers`, `dtype_stable`, `operators_pure`, `iop_elementwise`.
-  Their only hypotheses are `Inv` (coherent, at least one row) of the START state and `Valid`, the
-  guards of the operations themselves (operand / mask of the array's row structure; `append` on an
-  array that has at least one cell).
+* Full-strength theorems for `/repo` HEAD (`Cfg.current`, all five repairs committed):
+  `step_refines`, `step_preserves_coherent`, `history_refines`, `history_observers`,
+  `dtype_stable_current`, `observers_agree`, `operators_pure_current`, `iop_elementwise_current`.
+  Hypotheses: `Inv` (coherent, at least one row) of the START state and `Valid`, the guards of the
+  operations themselves (operand / mask of the array's row structure; `append` on an array that has
+  at least one cell).
 * The same statements for an arbitrary variant `cfg` carry the region `InScope cfg`
   (`…_variant` theorems); for the OLD variants the full statements are false — the
-  `…_before_fix_counterexample`s (explicitly about `Cfg.beforeC06` / `Cfg.asIs`) document what each
-  repair changed.
+  `…_before_fix_counterexample`s (explicitly about `Cfg.beforePriority` / `Cfg.beforeC06` / `Cfg.asIs`) document what each
+  committed repair changed.
 -/
 namespace C06
 open Ens Ens.RaggedW
@@ -62,6 +64,9 @@ example : absR (step Cfg.asIs (⟨[1, 2, 3], [1, 2], [[1], [2, 3]], false, false
     (.set2d (.slice ⟨none, none, none⟩) (.slice ⟨some 0, some 1, none⟩) (.scalar 7)))
     = .ok ([[7], [7, 3]], none) := by decide
 
+def ragged0' : State Int := ⟨[1, 2, 3], [1, 2], [[1], [2, 3]], false, false⟩
+def block0' : State Int := ⟨[1, 2, 3, 4], [2, 2], [[1, 2], [3, 4]], false, false⟩
+
 /-! ## the guards that belong to the operations themselves -/
 
 /-- an operand of an element-wise operator has the row structure of the array; a mask has it too;
@@ -83,28 +88,47 @@ instance (s : State α) [DecidableEq α] : (op : Op α) → Decidable (Valid s o
   | .append _ _ => inferInstanceAs (Decidable (s.data ≠ []))
   | .appendFlat _ => inferInstanceAs (Decidable (s.data ≠ []))
   | .setElem _ _ _ | .viewWrite _ _ _ | .setRow _ _ | .setRows _ _ _ | .setIntSlice _ _ _
-  | .set2d _ _ _ | .setPaired _ _ _ | .iop _ | .iopAt _ _ _ | .binop _ | .copyCtor _ _ => isTrue trivial
+  | .set2d _ _ _ | .setPaired _ _ _ | .iop _ | .iopAt _ _ _ | .binop _ | .copyCtor _ _
+  | .npLeft _ _ => isTrue trivial
 
-/-- For the fully repaired code every valid operation is in scope. -/
-theorem inScope_fixed (s : State α) (op : Op α) (h : Coherent s) (hv : Valid s op) :
-    InScope Cfg.current s op := by
+/-- the four committed repairs are present -/
+def Repaired (cfg : Cfg) : Prop :=
+  cfg.readsFix = true ∧ cfg.rowViewsFix = true ∧ cfg.arrayViewsFix = true ∧ cfg.appendFix = true
+
+/-- `c ⊕ a` with a numpy scalar / 0-d array on the LEFT -/
+def isNpLeft : Op α → Bool
+  | .npLeft _ _ => true
+  | _ => false
+
+/-- With the four committed repairs every valid operation is in scope, except (without the proposed
+operator-priority repair) an operator whose left operand is a numpy scalar. -/
+theorem inScope_repaired (cfg : Cfg) (hr : Repaired cfg) (s : State α) (op : Op α) (h : Coherent s)
+    (hv : Valid s op) (hn : cfg.priorityFix = true ∨ isNpLeft op = false) :
+    InScope cfg s op := by
+  obtain ⟨h1, h2, _, h4⟩ := hr
   cases op with
   | setElem i j x => trivial
   | viewWrite i j x => trivial
-  | setRow i v => exact Or.inl rfl
-  | setRows sel vs form => exact Or.inl rfl
+  | setRow i v => exact Or.inl h2
+  | setRows sel vs form => exact Or.inl h2
   | setIntSlice i sl v => trivial
-  | set2d r c v => exact ⟨idxAgree_fixed Cfg.current rfl h r c, Or.inl rfl⟩
-  | setPaired r c v => exact Or.inl rfl
-  | setMask mask v => exact ⟨maskAgree_of_lengths Cfg.current h mask hv (Or.inl rfl), Or.inl rfl⟩
+  | set2d r c v => exact ⟨idxAgree_fixed cfg h1 h r c, Or.inl h2⟩
+  | setPaired r c v => exact Or.inl h2
+  | setMask mask v => exact ⟨maskAgree_of_lengths cfg h mask hv (Or.inl h1), Or.inl h2⟩
   | append vs form => exact hv
-  | appendFlat v => exact ⟨rfl, hv⟩
-  | iop f => exact Or.inr rfl
-  | iop2 g o => exact ⟨hv, Or.inr rfl⟩
-  | iopAt r c f => exact ⟨idxAgree_fixed Cfg.current rfl h r c, Or.inl rfl⟩
-  | binop f => exact Or.inr rfl
-  | binop2 g o => exact ⟨hv, Or.inr rfl⟩
-  | copyCtor viaFlat np => exact Or.inr (Or.inr rfl)
+  | appendFlat v => exact ⟨h4, hv⟩
+  | iop f => exact Or.inr h1
+  | iop2 g o => exact ⟨hv, Or.inr h1⟩
+  | iopAt r c f => exact ⟨idxAgree_fixed cfg h1 h r c, Or.inl h2⟩
+  | binop f => exact Or.inr h1
+  | binop2 g o => exact ⟨hv, Or.inr h1⟩
+  | copyCtor viaFlat np => exact Or.inr (Or.inr h1)
+  | npLeft f rebind =>
+    rcases hn with hn | hn
+    · exact ⟨hn, Or.inr h1⟩
+    · simp [isNpLeft] at hn
+
+theorem repaired_current : Repaired Cfg.current := ⟨rfl, rfl, rfl, rfl⟩
 
 /-- On the unchanged tree a mask assignment is in scope as soon as the mask has the row structure
 of the array and at least one `True` cell (`where` + index conversion address exactly the `True`
@@ -162,16 +186,45 @@ the rows exactly what the list-of-rows model does (same result, same error kind,
 result). -/
 theorem step_refines (s : State α) (op : Op α) (h : Inv s) (hv : Valid s op) :
     absR (step Cfg.current s op) = specStep s.array op :=
-  step_refines_variant Cfg.current s op h (inScope_fixed s op h.1 hv)
+  step_refines_variant Cfg.current s op h (inScope_repaired _ repaired_current s op h.1 hv (Or.inl rfl))
 
 /-- **step_preserves_coherent**, full strength, `/repo` HEAD (also for the result of a pure operator) -/
 theorem step_preserves_coherent (s s' : State α) (o : Option (State α)) (op : Op α)
     (h : Inv s) (hv : Valid s op) (hstep : step Cfg.current s op = .ok (s', o)) :
     Coherent s' ∧ s'.array ≠ [] ∧ ∀ b, o = some b → Coherent b :=
-  step_preserves_coherent_variant Cfg.current s s' o op h (inScope_fixed s op h.1 hv)
-    (not_stale_of_fix Cfg.current rfl s op) hstep
+  step_preserves_coherent_variant Cfg.current s s' o op h
+    (inScope_repaired _ repaired_current s op h.1 hv (Or.inl rfl)) (not_stale_of_fix Cfg.current rfl s op) hstep
 
 example : C06_step_refines_full Cfg.current := fun s op h hv => step_refines s op h hv
+example : C06_step_preserves_coherent_full Cfg.current :=
+  fun s s' o op h hv hs => (step_preserves_coherent s s' o op h hv hs).1
+
+/-! ### what the operator-priority repair changed: the variant `Cfg.beforePriority` (for the record) -/
+
+theorem repaired_beforePriority : Repaired Cfg.beforePriority := ⟨rfl, rfl, rfl, rfl⟩
+
+/-- without `__array_priority__` everything except a numpy scalar on the left of an operator was
+already right -/
+theorem step_refines_before_priority_fix (s : State α) (op : Op α) (h : Inv s) (hv : Valid s op)
+    (hn : isNpLeft op = false) : absR (step Cfg.beforePriority s op) = specStep s.array op :=
+  step_refines_variant Cfg.beforePriority s op h
+    (inScope_repaired _ repaired_beforePriority s op h.1 hv (Or.inr hn))
+
+/-- `np.int64(2) * a` before the repair — ValueError on unequal rows, a plain ndarray on equal rows; the
+list-of-rows model, `2 * a`, and HEAD give the element-wise result -/
+theorem numpy_scalar_left_operand_before_fix_counterexample :
+    absR (step Cfg.beforePriority ragged0' (.npLeft (2 * ·) false)) = .error .valueError ∧
+    absR (step Cfg.beforePriority block0' (.npLeft (2 * ·) false)) = .error .notRagged ∧
+    specStep block0'.array (.npLeft (2 * ·) false) = .ok ([[1, 2], [3, 4]], some [[2, 4], [6, 8]]) ∧
+    absR (step Cfg.beforePriority block0' (.binop (2 * ·))) = .ok ([[1, 2], [3, 4]], some [[2, 4], [6, 8]]) ∧
+    absR (step Cfg.current block0' (.npLeft (2 * ·) false)) = .ok ([[1, 2], [3, 4]], some [[2, 4], [6, 8]]) :=
+  ⟨by decide, by decide, by decide, by decide, by decide⟩
+
+theorem step_refines_before_priority_fix_counterexample : ¬ C06_step_refines_full Cfg.beforePriority := by
+  intro h
+  have := h block0' (.npLeft (2 * ·) false) (by decide) trivial
+  revert this
+  decide
 
 /-! ### what the three write-side repairs changed: the variant `Cfg.beforeC06` (read-side repair only),
 one witness per finding that was open then (all closed by the `fix:` commits; for the record) -/
@@ -352,32 +405,41 @@ def C06_history_refines_full (cfg : Cfg) : Prop :=
   ∀ (s : State Int) (ops : List (Op Int)), Inv s → AllValidC cfg s ops →
     (run cfg s ops).array = specRun s.array ops ∧ Coherent (run cfg s ops)
 
-theorem allInScope_fixed (ops : List (Op α)) : ∀ (s : State α), Inv s → AllValid s ops →
-    AllInScope Cfg.current s ops := by
+theorem allInScope_repaired (cfg : Cfg) (hr : Repaired cfg) (ops : List (Op α)) :
+    ∀ (s : State α), Inv s → AllValidC cfg s ops →
+    (cfg.priorityFix = true ∨ ∀ op ∈ ops, isNpLeft op = false) → AllInScope cfg s ops := by
   induction ops with
-  | nil => intro _ _ _; trivial
+  | nil => intro _ _ _ _; trivial
   | cons op ops ih =>
-    intro s h hv
+    intro s h hv hn
     obtain ⟨hv1, hv2⟩ := hv
-    have hin := inScope_fixed s op h.1 hv1
-    have hst := not_stale_of_fix Cfg.current rfl s op
+    have hn1 : cfg.priorityFix = true ∨ isNpLeft op = false := by
+      rcases hn with hn | hn
+      · exact Or.inl hn
+      · exact Or.inr (hn op (by simp))
+    have hn2 : cfg.priorityFix = true ∨ ∀ op' ∈ ops, isNpLeft op' = false := by
+      rcases hn with hn | hn
+      · exact Or.inl hn
+      · exact Or.inr (fun op' ho => hn op' (by simp [ho]))
+    have hin := inScope_repaired cfg hr s op h.1 hv1 hn1
+    have hst := not_stale_of_fix cfg hr.2.2.1 s op
     refine ⟨hin, hst, ?_⟩
-    cases hs : step Cfg.current s op with
+    cases hs : step cfg s op with
     | error e =>
       rw [hs] at hv2
-      exact ih s h hv2
+      exact ih s h hv2 hn2
     | ok res =>
       obtain ⟨s', o⟩ := res
       rw [hs] at hv2
-      have := (stepOK_of_inScope Cfg.current h op hin (fun _ _ _ => specTargets_valid)).2 s' o hs
-      exact ih s' (this.1 hst) hv2
+      have := (stepOK_of_inScope cfg h op hin (fun _ _ _ => specTargets_valid)).2 s' o hs
+      exact ih s' (this.1 hst) hv2 hn2
 
 /-- **history_refines**, full strength, `/repo` HEAD: after ANY finite history of valid operations,
 starting from any coherent non-empty array, the rows of the object are the rows of the list-of-rows
 model after the same history and the two stored representations are coherent. -/
 theorem history_refines (s : State α) (ops : List (Op α)) (h : Inv s) (hv : AllValid s ops) :
     (run Cfg.current s ops).array = specRun s.array ops ∧ Coherent (run Cfg.current s ops) :=
-  history_refines_variant Cfg.current s ops h (allInScope_fixed ops s h hv)
+  history_refines_variant Cfg.current s ops h (allInScope_repaired _ repaired_current ops s h hv (Or.inl rfl))
 
 def decAllInScope [DecidableEq α] (cfg : Cfg) :
     (ops : List (Op α)) → (s : State α) → Decidable (AllInScope cfg s ops)
@@ -397,6 +459,14 @@ instance [DecidableEq α] (cfg : Cfg) (ops : List (Op α)) (s : State α) :
     Decidable (AllInScope cfg s ops) := decAllInScope cfg ops s
 
 example : C06_history_refines_full Cfg.current := fun s ops h hv => history_refines s ops h hv
+
+/-- before the operator-priority repair: `a = np.int64(2) * a` on `[[1], [2, 3]]` raised, the list of rows
+becomes `[[2], [4, 6]]` -/
+theorem history_refines_before_priority_fix_counterexample : ¬ C06_history_refines_full Cfg.beforePriority := by
+  intro h
+  have := (h ragged0' [.npLeft (2 * ·) true] (by decide) ⟨trivial, by split <;> trivial⟩).1
+  revert this
+  decide
 
 /-- history_refines was false before the write-side repairs: `a.append([5, 6])` on `[[1], [2, 3]]`
 raised and left the array as it was, the list of rows becomes `[[1], [2, 3], [5, 6]]` -/
@@ -457,7 +527,7 @@ theorem history_observers (s : State α) (ops : List (Op α)) (h : Inv s) (hv : 
     obsIter s' = rows' ∧ obsFlat s' = rows'.flatten ∧ obsLengths s' = rows'.map List.length ∧
     obsLen s' = rows'.length ∧
     (∀ (β : Type) (f : β → α → β) (init : β), obsReduce s' f init = rows'.flatten.foldl f init) :=
-  history_observers_variant Cfg.current s ops h (allInScope_fixed ops s h hv)
+  history_observers_variant Cfg.current s ops h (allInScope_repaired _ repaired_current ops s h hv (Or.inl rfl))
 
 -- non-vacuity on `/repo` HEAD: a history through every writer family, incl. the formerly failing forms
 example : AllValid block0
